@@ -206,7 +206,7 @@ def tlc(ctx, module, cfg, workers=None, env=None, timeout=900, args=(), deque=Fa
                if os.path.isdir(os.path.join(VERIF, 'spec', d))]
     jopts.append('-DTLA-Library=' + ':'.join(libdirs))
     cmd = ['timeout', str(timeout), 'java'] + jopts + ['-cp', TLA_CP, 'tlc2.TLC',
-           '-workers', str(workers or NCPU), '-metadir', meta, '-config', cfg] + list(args) + [module]
+           '-workers', str(workers or NCPU), '-metadir', meta, '-noGenerateSpecTE', '-config', cfg] + list(args) + [module]
     e = dict(os.environ)
     e.pop('JAVA_TOOL_OPTIONS', None)
     if env:
